@@ -554,7 +554,7 @@ func streamScenario(e *p2pexec.Executor, r *gen.Rand) {
 			s.op(fmt.Sprintf("dlnew %s %d %d", rds[r.Intn(5)], big[r.Intn(len(big))], big[r.Intn(len(big))]))
 		case 3:
 			s.op(fmt.Sprintf("dlreply %s %d %d %d 0 %d %d", rds[r.Intn(5)], b2i(!r.Chance(1, 4)), r.Intn(3), b2i(!r.Chance(1, 3)),
-				[]int64{5, 6, 0, 7, 1 << 40}[r.Intn(5)], []int64{5, 5, 6, 7}[r.Intn(4)]))
+				[]int64{5, 6, 0, 7, 1 << 40}[r.Intn(5)], []int64{5, 5, 6, 7, 0, 0}[r.Intn(6)]))
 		case 4:
 			rd := rds[r.Intn(5)]
 			same := b2i(!r.Chance(1, 3))
